@@ -1,15 +1,21 @@
 package props
 
 import (
+	"bufio"
 	"bytes"
 	"encoding/json"
+	"fmt"
+	"hash/fnv"
 	"io"
 	"mime"
 	"net/http"
 	"net/http/httptest"
 	"net/url"
+	"os"
+	"reflect"
 	"strconv"
 	"strings"
+	"testing/iotest"
 
 	apierrors "github.com/go-openapi/errors"
 	"github.com/go-openapi/loads"
@@ -63,6 +69,57 @@ var c06Methods = []string{"GET", "POST", "PUT", "DELETE", "PATCH", "HEAD", "OPTI
 
 const c06Body = `{"a":1}`
 
+// Widening (no new input or output field: everything below is EQUIVALENT for the code as it is and is
+// chosen from a checksum of the input line, c05Mix, or of the configuration, so that a case replays
+// identically):
+//   - the request value: hand-made as before, or (when the input describes something a peer can
+//     send) parsed by net/http from the wire (http.ReadRequest: Content-Length framing, real chunked
+//     framing with Request.TransferEncoding set, http.NoBody for no body, the header names spelled in
+//     any case); a hand-made request without length may carry TransferEncoding "chunked" as well;
+//   - the body stream: other io.Reader implementations (one byte per Read, data together with io.EOF,
+//     an empty read first; for the empty stream: a source failing with io.ErrUnexpectedEOF) and other
+//     sizes (1 byte, more than bufio's buffer);
+//   - where the lists are declared: consumes/produces on the operation, or document-wide, or on the
+//     operation with a different document-wide list beside it (which the operation's list overrides);
+//   - the Context: debug logging on (SWAGGER_DEBUG while the Context is made, Context.SetLogger) for
+//     a third of the configurations; the two entry points in either order; Context.ContentType asked
+//     before BindAndValidate (its memo is then what validation.contentType reads); BindAndValidate
+//     asked a second time with the request it returned (the verdict it reports is the remembered one);
+//   - the complete handler: Context.APIHandler(nil), APIHandler(PassthroughBuilder), RoutesHandler,
+//     APIHandlerSwaggerUI, APIHandlerRapiDoc, or middleware.Serve (a Context of its own).
+type c06Log struct{}
+
+func (c06Log) Printf(format string, args ...interface{}) { _ = fmt.Sprintf(format, args...) }
+func (c06Log) Debugf(format string, args ...interface{}) { _ = fmt.Sprintf(format, args...) }
+
+func init() {
+	// debug output of a Context made before SetLogger is called goes here, not to stderr
+	middleware.Logger = c06Log{}
+}
+
+func c06Hash(s string) uint32 {
+	h := fnv.New32a()
+	h.Write([]byte(s))
+	return h.Sum32()
+}
+
+// c06Place: where a list is declared (0 on the operation, 1 document-wide, 2 on the operation with
+// a different document-wide list beside it)
+func c06Place(doc, op map[string]interface{}, field string, list []string, place uint32) {
+	if len(list) == 0 {
+		return
+	}
+	switch place % 3 {
+	case 1:
+		doc[field] = list
+	case 2:
+		op[field] = list
+		doc[field] = []string{"application/x-decoy", "text/plain"}
+	default:
+		op[field] = list
+	}
+}
+
 type c06Consumer struct {
 	id  int
 	ran *[]int
@@ -82,6 +139,43 @@ type c06API struct {
 	handler http.Handler
 	ran     []int
 	handled int
+	doc     *loads.Document
+	debug   bool
+	alt     map[uint32]http.Handler
+}
+
+// serveBy: the complete handler through one of the public constructors
+func (a *c06API) serveBy(k uint32) http.Handler {
+	k %= 16
+	if k < 8 {
+		return a.handler // Context.APIHandler(nil), made with the Context
+	}
+	if h, ok := a.alt[k]; ok {
+		return h
+	}
+	var h http.Handler
+	switch {
+	case k < 10:
+		h = a.ctx.RoutesHandler(nil)
+	case k < 12:
+		h = a.ctx.APIHandler(middleware.PassthroughBuilder)
+	case k == 12:
+		h = a.ctx.APIHandlerSwaggerUI(nil)
+	case k == 13:
+		h = a.ctx.APIHandlerRapiDoc(nil)
+	default:
+		// a Context of its own over the same registrations
+		if a.debug {
+			os.Setenv("SWAGGER_DEBUG", "1")
+		}
+		h = middleware.Serve(a.doc, a.api)
+		os.Unsetenv("SWAGGER_DEBUG")
+	}
+	if a.alt == nil {
+		a.alt = map[uint32]http.Handler{}
+	}
+	a.alt[k] = h
+	return h
 }
 
 // building a document costs ~10 ms (loads.Analyzed clones the spec through gob): documents are
@@ -97,7 +191,8 @@ func c06Get(fCons, fDflt, fReg string) *c06API {
 		if len(c06APIs) > 20000 {
 			c06APIs = map[string]*c06API{}
 		}
-		a = c06Build(c06Doc(fCons, proto.UnL(fCons), nil, true), proto.UnB(fDflt), proto.UnL(fReg), runtime.JSONMime)
+		hk := c06Hash(key)
+		a = c06Build(c06Doc(fCons+" "+strconv.Itoa(int(hk%3)), proto.UnL(fCons), nil, true, hk%3, 0), proto.UnB(fDflt), proto.UnL(fReg), runtime.JSONMime, hk>>4%3 == 0)
 		c06APIs[key] = a
 	}
 	a.ran, a.handled = nil, 0
@@ -112,7 +207,8 @@ func c06GetH(fCons, fDflt, fReg, fProd, fDprod string) *c06API {
 		if len(c06APIs) > 20000 {
 			c06APIs = map[string]*c06API{}
 		}
-		a = c06Build(c06Doc("H "+fCons+" "+fProd, proto.UnL(fCons), proto.UnL(fProd), false), proto.UnB(fDflt), proto.UnL(fReg), proto.UnB(fDprod))
+		hk := c06Hash(key)
+		a = c06Build(c06Doc("H "+fCons+" "+fProd+" "+strconv.Itoa(int(hk%9)), proto.UnL(fCons), proto.UnL(fProd), false, hk%3, hk/3%3), proto.UnB(fDflt), proto.UnL(fReg), proto.UnB(fDprod), hk>>4%3 == 0)
 		for _, mt := range proto.UnL(fProd) {
 			if n := c06Norm(mt); n != "" {
 				a.api.RegisterProducer(n, runtime.JSONProducer())
@@ -124,7 +220,7 @@ func c06GetH(fCons, fDflt, fReg, fProd, fDprod string) *c06API {
 	return a
 }
 
-func c06Doc(key string, opConsumes, opProduces []string, globalProduces bool) *loads.Document {
+func c06Doc(key string, opConsumes, opProduces []string, globalProduces bool, placeC, placeP uint32) *loads.Document {
 	if d, ok := c06Docs[key]; ok {
 		return d
 	}
@@ -132,12 +228,9 @@ func c06Doc(key string, opConsumes, opProduces []string, globalProduces bool) *l
 		"parameters": []interface{}{map[string]interface{}{"name": "body", "in": "body", "schema": map[string]interface{}{}}},
 		"responses":  map[string]interface{}{"200": map[string]interface{}{"description": "ok"}},
 	}
-	if len(opConsumes) > 0 {
-		op["consumes"] = opConsumes
-	}
-	if len(opProduces) > 0 {
-		op["produces"] = opProduces
-	}
+	top := map[string]interface{}{}
+	c06Place(top, op, "consumes", opConsumes, placeC)
+	c06Place(top, op, "produces", opProduces, placeP)
 	item := map[string]interface{}{}
 	for _, m := range c06Methods {
 		o := map[string]interface{}{"operationId": "op" + m}
@@ -155,6 +248,9 @@ func c06Doc(key string, opConsumes, opProduces []string, globalProduces bool) *l
 	if globalProduces {
 		doc["produces"] = []string{"application/json"}
 	}
+	for k, v := range top {
+		doc[k] = v
+	}
 	raw, err := json.Marshal(doc)
 	if err != nil {
 		panic(err)
@@ -167,8 +263,13 @@ func c06Doc(key string, opConsumes, opProduces []string, globalProduces bool) *l
 	return d
 }
 
-func c06Build(d *loads.Document, dflt string, registered []string, dprod string) *c06API {
-	a := &c06API{}
+func c06Build(d *loads.Document, dflt string, registered []string, dprod string, debug bool) *c06API {
+	a := &c06API{doc: d, debug: debug}
+	if debug {
+		// logger.DebugEnabled is asked while the Context (and its router) is made
+		os.Setenv("SWAGGER_DEBUG", "1")
+		defer os.Unsetenv("SWAGGER_DEBUG")
+	}
 	api := untyped.NewAPI(d).WithoutJSONDefaults()
 	a.api = api
 	api.DefaultConsumes = dflt
@@ -186,6 +287,9 @@ func c06Build(d *loads.Document, dflt string, registered []string, dprod string)
 		}))
 	}
 	a.ctx = middleware.NewContext(d, api, nil)
+	if debug {
+		a.ctx.SetLogger(c06Log{})
+	}
 	a.handler = a.ctx.APIHandler(nil)
 	return a
 }
@@ -198,9 +302,122 @@ type c06Req struct {
 	hasCL   bool
 	mode    int
 	accept  []string
+	v       uint32 // checksum of the input line: picks among equivalent request values
+}
+
+// a source that fails before yielding a byte
+type c06FailReader struct{}
+
+func (c06FailReader) Read([]byte) (int, error) { return 0, io.ErrUnexpectedEOF }
+
+// c06Stream: the body stream of modes 2 (holds data) and 3 (holds nothing)
+func (q c06Req) body() io.ReadCloser {
+	if q.mode == 2 {
+		data := []byte(c06Body)
+		if q.cl <= 0 {
+			switch q.v >> 3 & 3 {
+			case 2:
+				data = data[:1]
+			case 3:
+				data = bytes.Repeat([]byte(c06Body+" "), 1200) // beyond bufio's 4096
+			}
+		}
+		var rd io.Reader = bytes.NewReader(data)
+		switch q.v >> 1 & 3 {
+		case 1:
+			rd = iotest.OneByteReader(rd)
+		case 2:
+			rd = iotest.DataErrReader(rd)
+		case 3:
+			rd = io.MultiReader(bytes.NewReader(nil), strings.NewReader(""), rd)
+		}
+		return io.NopCloser(rd)
+	}
+	switch q.v >> 1 & 3 {
+	case 1:
+		return io.NopCloser(c06FailReader{})
+	case 2:
+		return io.NopCloser(iotest.DataErrReader(strings.NewReader("")))
+	case 3:
+		return io.NopCloser(new(bytes.Buffer))
+	}
+	return io.NopCloser(bytes.NewReader(nil))
+}
+
+// wire: the same request as net/http parses it from a connection, or nil when the input is not
+// something a peer can send (nil Body, a length that contradicts the header, header lines the parser
+// would alter) - found out by parsing and comparing, never assumed
+func (q c06Req) wire() *http.Request {
+	if q.v>>6&1 == 0 || q.mode == 0 {
+		return nil
+	}
+	spell := func(name string) string {
+		switch q.v >> 13 & 3 {
+		case 1:
+			return strings.ToLower(name)
+		case 2:
+			return strings.ToUpper(name)
+		}
+		return name
+	}
+	var b bytes.Buffer
+	fmt.Fprintf(&b, "%s /x HTTP/1.1\r\nHost: localhost\r\n", q.method)
+	for _, l := range q.ctLines {
+		fmt.Fprintf(&b, "%s: %s\r\n", spell("Content-Type"), l)
+	}
+	for _, l := range q.accept {
+		fmt.Fprintf(&b, "%s: %s\r\n", spell("Accept"), l)
+	}
+	var payload []byte
+	if q.mode == 2 {
+		payload, _ = io.ReadAll(q.body())
+	}
+	switch {
+	case q.hasCL:
+		fmt.Fprintf(&b, "%s: %s\r\n\r\n", spell("Content-Length"), q.clHdr)
+		b.Write(payload)
+	case q.cl < 0:
+		fmt.Fprintf(&b, "%s: chunked\r\n\r\n", spell("Transfer-Encoding"))
+		for len(payload) > 0 {
+			n := 3
+			if len(payload) > 100 {
+				n = 2048
+			}
+			if n > len(payload) {
+				n = len(payload)
+			}
+			fmt.Fprintf(&b, "%x\r\n%s\r\n", n, payload[:n])
+			payload = payload[n:]
+		}
+		b.WriteString("0\r\n\r\n")
+	default:
+		b.WriteString("\r\n")
+		if len(payload) > 0 {
+			return nil // data without framing is no request
+		}
+	}
+	r, err := http.ReadRequest(bufio.NewReader(&b))
+	if err != nil {
+		return nil
+	}
+	var wantCL []string
+	if q.hasCL {
+		wantCL = []string{q.clHdr}
+	}
+	same := func(got, want []string) bool {
+		return len(got) == len(want) && (len(got) == 0 || reflect.DeepEqual(got, want))
+	}
+	if r.ContentLength != q.cl || !same(r.Header["Content-Type"], q.ctLines) || !same(r.Header["Content-Length"], wantCL) ||
+		!same(r.Header["Accept"], q.accept) || (r.Body == http.NoBody) != (q.mode == 1) || r.Method != q.method {
+		return nil
+	}
+	return r
 }
 
 func (q c06Req) mk() *http.Request {
+	if r := q.wire(); r != nil {
+		return r
+	}
 	r := &http.Request{
 		Method:        q.method,
 		URL:           &url.URL{Path: "/x"},
@@ -218,6 +435,9 @@ func (q c06Req) mk() *http.Request {
 	if q.hasCL {
 		r.Header["Content-Length"] = []string{q.clHdr}
 	}
+	if q.cl < 0 && q.mode >= 2 && q.v&1 == 1 {
+		r.TransferEncoding = []string{"chunked"}
+	}
 	if len(q.accept) > 0 {
 		r.Header["Accept"] = append([]string(nil), q.accept...)
 	}
@@ -225,10 +445,8 @@ func (q c06Req) mk() *http.Request {
 	case 0:
 	case 1:
 		r.Body = http.NoBody
-	case 2:
-		r.Body = io.NopCloser(bytes.NewReader([]byte(c06Body)))
 	default:
-		r.Body = io.NopCloser(bytes.NewReader(nil))
+		r.Body = q.body()
 	}
 	return r
 }
@@ -319,7 +537,8 @@ func c06ExecH(in []string) []string {
 	if len(in) != 13 {
 		return []string{"INVALID"}
 	}
-	q := c06Req{method: proto.UnB(in[4]), ctLines: proto.UnL(in[5]), cl: int64(proto.UnN(in[6])), mode: proto.UnN(in[8]), accept: proto.UnL(in[11])}
+	mix := c05Mix(in)
+	q := c06Req{method: proto.UnB(in[4]), ctLines: proto.UnL(in[5]), cl: int64(proto.UnN(in[6])), mode: proto.UnN(in[8]), accept: proto.UnL(in[11]), v: mix}
 	if in[7] != "-" {
 		q.hasCL, q.clHdr = true, proto.UnB(in[7])
 	}
@@ -349,48 +568,80 @@ func c06ExecH(in []string) []string {
 	}
 
 	// U: the reflective entry point
-	a := build()
-	route, rq, ok := a.ctx.RouteInfo(q.mk())
-	if !ok {
-		panic("C06: no route for " + q.method)
+	var rp, uCodes, uSel, uRan string
+	runU := func() {
+		a := build()
+		route, rq, ok := a.ctx.RouteInfo(q.mk())
+		if !ok {
+			panic("C06: no route for " + q.method)
+		}
+		rp = proto.L(route.Produces)
+		rq = c06AskCT(a, rq, mix)
+		_, rq2, uerr := a.ctx.BindAndValidate(rq, route)
+		if mix>>16&3 == 0 && rq2 != nil {
+			// asked again with the request it handed back: the remembered verdict, no second decoding
+			_, _, uerr = a.ctx.BindAndValidate(rq2, route)
+		}
+		uCodes, uSel, uRan = c06Codes(uerr), c06Sel(route.Consumer), c06Ran(a.ran)
 	}
-	rp := proto.L(route.Produces)
-	_, _, uerr := a.ctx.BindAndValidate(rq, route)
-	uCodes, uSel, uRan := c06Codes(uerr), c06Sel(route.Consumer), c06Ran(a.ran)
 
 	// T: the entry point of generated servers
-	a = build()
-	route, rq, _ = a.ctx.RouteInfo(q.mk())
-	var terr error
+	var tCodes, tSel, tRan string
 	calls, asIs := 0, false
-	if kind == 0 {
-		terr = a.ctx.BindValidRequest(rq, route, nil)
-	} else {
-		b := &c06HBinder{}
-		switch kind {
-		case 2:
-			b.err = apierrors.New(422, "binder says no")
-		case 3:
-			b.err = io.ErrUnexpectedEOF
+	runT := func() {
+		a := build()
+		route, rq, _ := a.ctx.RouteInfo(q.mk())
+		var terr error
+		if kind == 0 {
+			terr = a.ctx.BindValidRequest(rq, route, nil)
+		} else {
+			b := &c06HBinder{}
+			switch kind {
+			case 2:
+				b.err = apierrors.New(422, "binder says no")
+			case 3:
+				b.err = io.ErrUnexpectedEOF
+			}
+			terr = a.ctx.BindValidRequest(rq, route, b)
+			calls = b.calls
+			asIs = b.err != nil && terr == b.err
 		}
-		terr = a.ctx.BindValidRequest(rq, route, b)
-		calls = b.calls
-		asIs = b.err != nil && terr == b.err
+		tCodes, tSel, tRan = c06Codes(terr), c06Sel(route.Consumer), c06Ran(a.ran)
 	}
-	tCodes, tSel, tRan := c06Codes(terr), c06Sel(route.Consumer), c06Ran(a.ran)
+	// in either order: the entry points share the Context and nothing else
+	if mix>>8&1 == 1 {
+		runT()
+		runU()
+	} else {
+		runU()
+		runT()
+	}
 
 	// S: the complete handler
 	sSt, sRan, sH := "0", "-1", "0"
 	if dprod != "" {
-		a = build()
+		a := build()
 		rec := httptest.NewRecorder()
-		a.handler.ServeHTTP(rec, q.mk())
+		a.serveBy(mix>>9).ServeHTTP(rec, q.mk())
 		sSt, sRan, sH = strconv.Itoa(rec.Code), c06Ran(a.ran), strconv.Itoa(a.handled)
 	}
 
 	return []string{proto.Bool(hasBody), proto.B(eff), p1, p2, rp,
 		uCodes, uSel, uRan, tCodes, tSel, strconv.Itoa(calls), tRan, proto.Bool(asIs),
 		sSt, sRan, sH}
+}
+
+// c06AskCT: for a quarter of the cases Context.ContentType is asked before BindAndValidate, as a
+// middleware in front of the binding may do; what it remembers in the request's context is then
+// what validation.contentType reads. An unparsable header is remembered by nobody.
+func c06AskCT(a *c06API, rq *http.Request, mix uint32) *http.Request {
+	if mix>>14&3 != 0 {
+		return rq
+	}
+	if _, _, r2, err := a.ctx.ContentType(rq); err == nil && r2 != nil {
+		return r2
+	}
+	return rq
 }
 
 func c06Exec(in []string) []string {
@@ -403,7 +654,8 @@ func c06Exec(in []string) []string {
 	if in[0] != "G" {
 		panic("C06: unknown stream " + in[0])
 	}
-	q := c06Req{method: proto.UnB(in[4]), ctLines: proto.UnL(in[5]), cl: int64(proto.UnN(in[6])), mode: proto.UnN(in[8])}
+	mix := c05Mix(in)
+	q := c06Req{method: proto.UnB(in[4]), ctLines: proto.UnL(in[5]), cl: int64(proto.UnN(in[6])), mode: proto.UnN(in[8]), v: mix}
 	if in[7] != "-" {
 		q.hasCL, q.clHdr = true, proto.UnB(in[7])
 	}
@@ -432,26 +684,43 @@ func c06Exec(in []string) []string {
 	}
 
 	// U: the reflective entry point
-	a := build()
-	req := q.mk()
-	route, rq, ok := a.ctx.RouteInfo(req)
-	if !ok {
-		panic("C06: no route for " + q.method)
+	var uCodes, uSel, uRan string
+	runU := func() {
+		a := build()
+		route, rq, ok := a.ctx.RouteInfo(q.mk())
+		if !ok {
+			panic("C06: no route for " + q.method)
+		}
+		rq = c06AskCT(a, rq, mix)
+		_, rq2, uerr := a.ctx.BindAndValidate(rq, route)
+		if mix>>16&3 == 0 && rq2 != nil {
+			// asked again with the request it handed back: the remembered verdict, no second decoding
+			_, _, uerr = a.ctx.BindAndValidate(rq2, route)
+		}
+		uCodes, uSel, uRan = c06Codes(uerr), c06Sel(route.Consumer), c06Ran(a.ran)
 	}
-	_, _, uerr := a.ctx.BindAndValidate(rq, route)
-	uCodes, uSel, uRan := c06Codes(uerr), c06Sel(route.Consumer), c06Ran(a.ran)
 
 	// T: the entry point of generated servers
-	a = build()
-	req = q.mk()
-	route, rq, _ = a.ctx.RouteInfo(req)
-	terr := a.ctx.BindValidRequest(rq, route, c06Binder{})
-	tCodes, tSel, tRan := c06Codes(terr), c06Sel(route.Consumer), c06Ran(a.ran)
+	var tCodes, tSel, tRan string
+	runT := func() {
+		a := build()
+		route, rq, _ := a.ctx.RouteInfo(q.mk())
+		terr := a.ctx.BindValidRequest(rq, route, c06Binder{})
+		tCodes, tSel, tRan = c06Codes(terr), c06Sel(route.Consumer), c06Ran(a.ran)
+	}
+	// in either order: the entry points share the Context and nothing else
+	if mix>>8&1 == 1 {
+		runT()
+		runU()
+	} else {
+		runU()
+		runT()
+	}
 
 	// S: the complete handler
-	a = build()
+	a := build()
 	rec := httptest.NewRecorder()
-	a.handler.ServeHTTP(rec, q.mk())
+	a.serveBy(mix>>9).ServeHTTP(rec, q.mk())
 
 	return []string{proto.Bool(hasBody), proto.B(eff), p1, p2,
 		uCodes, uSel, uRan, tCodes, tSel, tRan,
@@ -700,6 +969,8 @@ func c06Method(r *proto.Rng) string {
 	m := c06Methods[r.Intn(len(c06Methods))]
 	if r.Chance(1, 10) {
 		m = strings.ToLower(m)
+	} else if r.Chance(1, 15) {
+		m = c06FlipCase(r, strings.ToLower(m)) // Post, pUT, ...
 	}
 	return m
 }
